@@ -572,7 +572,7 @@ def oasFromBytes (buf : Bytes) : Res (Nat × Nat) :=
 def oasLoop : Nat → Bytes → Res (List (Nat × Nat))
   | 0, _ => ok []
   | n+1, bs =>
-    if bs.length < 9 then crash "slice bounds out of range" else do
+    if (bs.take 9).length < 9 then crash "slice bounds out of range" else do
     let x ← oasFromBytes (bs.take 9)
     let r ← oasLoop n (bs.drop 9)
     ok (x :: r)
@@ -604,7 +604,8 @@ theorem oasLoop_safe (B : Nat) (hB : 8 ≤ B) : ∀ (n : Nat) (bs : Bytes), 9 * 
   | succ n ih =>
     intro bs h
     unfold oasLoop
-    split; · omega
+    split
+    · rename_i hs; simp [List.length_take] at hs; omega
     refine safe_bind (safe_mono (oasFromBytes_safe _) hB) (fun _ _ => ?_)
     refine safe_bind (ih _ (by simp [List.length_drop]; omega)) (fun _ _ => safe_ok _ _)
 
@@ -689,14 +690,17 @@ def bkMaxHeaderSize : Nat :=
 
 theorem bkMaxHeaderSize_val : bkMaxHeaderSize = 785945 := by decide
 
-/-- the `for i < numPrefixes` loop: `decoder.Read(prefix[:])` is all-or-nothing, `ReadUint64` needs 8 bytes -/
-def bkPrefixLoop : Nat → Bytes → Res (List (Nat × Nat))
-  | 0, _ => ok []
-  | n+1, bs =>
-    if bs.length < 2 then fail "failed to read prefixes" else
-    if (bs.drop 2).length < 8 then fail "failed to read offsets" else do
-    let r ← bkPrefixLoop n (bs.drop 10)
-    ok ((unle (bs.take 2), unle ((bs.drop 2).take 8)) :: r)
+/-- the `for i < numPrefixes` loop: `decoder.Read(prefix[:])` is all-or-nothing, `ReadUint64` needs 8 bytes.
+    Accumulator form (constant stack on the 65536 pairs of a real file; lengths are only taken of short prefixes). -/
+def bkPrefixAux : Nat → Bytes → List (Nat × Nat) → Option (List (Nat × Nat))
+  | 0, _, acc => some acc.reverse
+  | n+1, bs, acc =>
+    if (bs.take 2).length < 2 then none else
+    if ((bs.drop 2).take 8).length < 8 then none else
+    bkPrefixAux n (bs.drop 10) ((unle (bs.take 2), unle ((bs.drop 2).take 8)) :: acc)
+
+def bkPrefixLoop (n : Nat) (bs : Bytes) : Res (List (Nat × Nat)) :=
+  ofOption "failed to read prefixes / offsets" (bkPrefixAux n bs [])
 
 structure BkHeader where
   table : List (Nat × Nat)
@@ -741,14 +745,7 @@ def bkOpenPinnedAlloc (f : Bytes) : Res Unit := do
     make (unle szb) 1
     if 4 + unle szb > f.length ∨ f.length ≤ 4 then fail "failed to read header bytes" else ok ()
 
-theorem bkPrefixLoop_safe (n : Nat) (bs : Bytes) : Safe 0 (bkPrefixLoop n bs) := by
-  induction n generalizing bs with
-  | zero => exact safe_ok _ _
-  | succ n ih =>
-    unfold bkPrefixLoop
-    split; · exact safe_fail _ _
-    split; · exact safe_fail _ _
-    exact safe_bind (ih _) (fun _ _ => safe_ok _ _)
+theorem bkPrefixLoop_safe (n : Nat) (bs : Bytes) : Safe 0 (bkPrefixLoop n bs) := safe_ofOption _ _ _
 
 def bkOpenMaxAlloc : Nat := bkMaxHeaderSize
 
@@ -788,26 +785,26 @@ structure BT where
   values : List Nat
   deriving Repr
 
-/-- the value loop: `reader.Read(timeBuf)` fails only when nothing is left (a short read is not an error in Go);
+/-- the value loop: `io.ReadFull(reader, timeBuf)` — four bytes or an error;
     written with an accumulator so that the compiled driver runs it in constant stack on a full epoch (432000 values) -/
 def btValuesAux : Nat → Bytes → List Nat → Option (List Nat)
   | 0, _, acc => some acc.reverse
-  | n+1, bs, acc => if bs.isEmpty then none else btValuesAux n (bs.drop 4) (unle (bs.take 4) :: acc)
+  | n+1, bs, acc => if (bs.take 4).length < 4 then none else btValuesAux n (bs.drop 4) (unle (bs.take 4) :: acc)
 
 /-- each round `make`s a 4-byte buffer: one `alloc 4` stands for all of them (only the maximum is recorded) -/
 def btValues (n : Nat) (bs : Bytes) : Res (List Nat) := do
   alloc 4
   ofOption "failed to read time" (btValuesAux n bs [])
 
-/-- one header field: `make([]byte, 8)` + `reader.Read` (fails only on an exhausted reader) -/
+/-- one header field: `make([]byte, 8)` + `io.ReadFull` (eight bytes or an error) -/
 def btField (bs : Bytes) : Res (Nat × Bytes) := do
   alloc 8
-  if bs.isEmpty then fail "failed to read field" else ok (unle (bs.take 8), bs.drop 8)
+  if (bs.take 8).length < 8 then fail "failed to read field" else ok (unle (bs.take 8), bs.drop 8)
 
 /-- `unmarshalBinary`; `checked = true` is the repaired code (capacity compared with the bytes that are left) -/
 def btUnmarshalG (checked : Bool) (data : Bytes) : Res BT := do
   alloc 14
-  if data.isEmpty then fail "failed to read magic" else
+  if (data.take 14).length < 14 then fail "failed to read magic" else
   if data.take 14 ≠ btMagic then fail "invalid magic" else do
   let (start, r1) ← btField (data.drop 14)
   let (stop, r2) ← btField r1
@@ -1040,7 +1037,9 @@ theorem readNodeAt_safe (cidLen : Bytes → Option Nat) (hc : CidSpec cidLen) (f
   exact safe_mono (parseNodeFromSection_safe cidLen hc _ _) (Nat.zero_le _)
 
 /-- `readNodeSizeFromReaderAtWithOffset`: ten bytes at the offset (a short read is an error), `binary.Uvarint`, and
-    `dataLen += uint64(n)` where a negative `n` (overflow) wraps around; then the section limit -/
+    `dataLen += uint64(n)` in uint64 arithmetic — unchecked: `n` is 0 when all ten bytes carry the continuation bit
+    (the result is then 0) and −10 when the tenth byte overflows (the sum is then far above the section limit); a
+    ten-byte encoding of a value near 2^64 wraps around to a small number.  Then the section limit. -/
 def readNodeSize (f : Bytes) (off : Nat) : Res Nat := do
   alloc 10
   if off ≥ 2 ^ 63 then fail "negative offset" else
@@ -1048,8 +1047,8 @@ def readNodeSize (f : Bytes) (off : Nat) : Res Nat := do
   | none => fail "EOF"
   | some lb =>
     let dataLen := match goUvarint lb 0 with
-      | some (v, n) => v + n
-      | none => 2 ^ 64 - 1      -- Uvarint returns (0, n ≤ 0); uint64(n) is at least 2^64 - 11, far above the limit
+      | some (v, n) => (v + n) % 2 ^ 64
+      | none => if lb.all (fun b => b.toNat ≥ 128) then 0 else 2 ^ 64 - 10
     if dataLen > maxSection then fail "malformed car; header is bigger than util.MaxAllowedSectionSize" else ok dataLen
 
 theorem readNodeSize_safe (f : Bytes) (off : Nat) : Safe 10 (readNodeSize f off) := by
